@@ -153,6 +153,8 @@ func c02Scenarios(c *vlib.Ctx) []c02Scenario {
 			// the same with the task manager's own bookkeeping of the failure held up (delay point at the
 			// start of its goroutine): the task has lost its executor id but its role is still active
 			c02Scenario{Transition: "START_ACTIVITY", Hosts: 2, Tasks: []c02Task{{Name: "victim", Critical: true, Mode: "direct", Host: 1, Outcome: "exec-lost-racing"}, {Name: "bc", Critical: true, Mode: "direct", Host: 2, Outcome: "ok"}}},
+			// a critical target dies (TASK_FAILED) on receiving the command and never answers, next to one that acknowledges
+			c02Scenario{Transition: "CONFIGURE", Hosts: 2, Tasks: []c02Task{{Name: "victim", Critical: true, Mode: "direct", Host: 1, Outcome: "die"}, {Name: "bc", Critical: true, Mode: "direct", Host: 2, Outcome: "ok"}}},
 			// the only task of the workflow loses its executor: nothing is left to command
 			c02Scenario{Transition: "START_ACTIVITY", Hosts: 2, Tasks: []c02Task{{Name: "victim", Critical: true, Mode: "direct", Host: 1, Outcome: "exec-lost-before"}}},
 			// a silent non-critical target next to a critical one that acknowledges (a multi-target command)
